@@ -151,6 +151,14 @@ func c15Check(c c15Case) error {
 			}
 			pool[tgt] = got
 			model[tgt] = want
+		case "reset":
+			// ParsedJson.Reset is one more "earlier call on that object"; what the object exposes afterwards is not
+			// claimed, only that it is as good a reuse argument / destination as any
+			if slot < 0 || pool[slot] == nil || model[slot] == nil {
+				continue
+			}
+			pool[slot].Reset()
+			model[slot] = nil
 		case "edit":
 			if slot < 0 || pool[slot] == nil || model[slot] == nil {
 				continue
@@ -478,6 +486,9 @@ func TestC15_Histories(t *testing.T) {
 				prevFailed = invalid && st.Slot >= 0
 			case k <= 5:
 				st.Kind = "edit"
+				if rapid.IntRange(0, 2).Draw(t, "reset") == 0 {
+					st.Kind = "reset"
+				}
 			case k <= 7:
 				st.Kind = "serialize"
 			default:
